@@ -203,6 +203,16 @@ def _run_rest(check, an: Analysis):
     c08._check_connective_subscription(_Sub(check, 'I', 'Connective'), an)
     from . import c03 as _c03
     _c03.check_handlers(check, an, 'I')
+    c08.check_connective_operators(check, an, 'I')
+    # what an until-block watches comes to hold by a store to a truth source (a flag, the
+    # done-state of a task, a tracked value): each such store tells the subscribers in the
+    # same atomic block -- however the task ended (rule shared with C08)
+    c08._check_wakeups(_Sub(check, 'I', 'wake-up'), an)
+    # `until(time + d)`: a dated activation is asked for only for a date that lies ahead
+    # (a wake-up queued "in zero time" lands in a bucket of its own behind everything the
+    # current time step still does; `time + 0` is the instant) (rule shared with C01)
+    from . import c01 as _c01
+    _c01._check_schedule_preconditions(_Sub(check, 'I', 'schedule'), an)
     check.floor('I', 20)
     # ---- C ------------------------------------------------------------------
     c08._check_trigger_coverage(check, an, c08.condition_classes(an))
